@@ -15,11 +15,12 @@ import glob
 
 VERIF = os.path.dirname(os.path.dirname(os.path.abspath(__file__)))
 REPO = os.environ.get("VERIF_REPO", "/repo")
-BUILD = os.path.join(VERIF, "build")
+BUILD = os.environ.get("VERIF_BUILD") or os.path.join(VERIF, "build")
+UNIT = os.path.join(BUILD, "unit")  # self-contained compilation unit: slice + models + woven sources
 HARN_SRC = os.path.join(VERIF, "kani", "harness")
 # harness sources are snapshotted into build/weave/harness by weave_kani(); everything that is
 # compiled refers to the snapshot, so editing kani/harness while a check runs cannot disturb it
-HARN = os.path.join(BUILD, "weave", "harness")
+HARN = os.path.join(UNIT, "weave", "harness")
 
 # source file (relative to src/)  ->  list of (module name, harness file)
 MOUNTS = {
@@ -117,7 +118,7 @@ def _sync_tree(src, dst):
 
 def weave_kani():
     """scratch copy for the Kani slice -> /verif/build/weave/src. Returns metadata dict."""
-    out = os.path.join(BUILD, "weave")
+    out = os.path.join(UNIT, "weave")
     stage = os.path.join(BUILD, "weave.stage")
     shutil.rmtree(stage, ignore_errors=True)
     os.makedirs(stage)
@@ -172,8 +173,21 @@ def weave_kani():
             if rel not in want:
                 os.remove(os.path.join(root, fn))
     shutil.rmtree(stage, ignore_errors=True)
+    # the slice crate and the model crates are copied next to the woven sources, so that one BUILD
+    # root is a self-contained compilation unit (several roots can be used in parallel)
+    for sub in ("slice", "models"):
+        srcd = os.path.join(VERIF, "kani", sub)
+        for root, dirs, files in os.walk(srcd):
+            dirs[:] = [d for d in dirs if d != "target"]
+            for fn in files:
+                if fn == "Cargo.lock":
+                    continue
+                sp = os.path.join(root, fn)
+                rel = os.path.relpath(sp, os.path.join(VERIF, "kani"))
+                with open(sp) as f:
+                    _write_if_changed(os.path.join(UNIT, rel), f.read())
     # slice lock file: start from the repository's, cargo prunes it
-    lockdst = os.path.join(VERIF, "kani", "slice", "Cargo.lock")
+    lockdst = os.path.join(UNIT, "slice", "Cargo.lock")
     if not os.path.exists(lockdst):
         shutil.copy(os.path.join(REPO, "Cargo.lock"), lockdst)
     meta = {
